@@ -95,6 +95,59 @@ def read_via_overlay(ctx, rule='C07.read-via-overlay'):
     return res
 
 
+def id_form_opaque(ctx, rule='C07.id-form-opaque'):
+    """inside a write transaction the same leaf goes by two names -- `Page(p)` when a cursor steps into it, `Node(n)` once the search found it copied into the overlay.  Only
+    the overlay owner (InnerBucket: page_node / node) may tell the forms apart or take the number out; everywhere else an id is opaque: no test of its variant, no equality
+    or order between ids, no extraction of the payload.  A decision taken on the form (skip only `Node` leaves; "same leaf" by id equality; a cache keyed by the bare number)
+    is right for committed data and wrong for data the transaction itself changed"""
+    res = []
+    F = ctx.facts
+    a = F.adt('PageNodeID')
+    if a is None:
+        return [unresolved(rule, 'type PageNodeID')]
+    n = 0
+    owner_sites = 0
+    for fn in sorted(F.fns, key=lambda g: g.path):
+        owner = fn.owner if fn.kind == 'Closure' else fn
+        in_owner = bool(owner.self_adt and last_seg(owner.self_adt) == 'InnerBucket')
+        if fn.trait and last_seg(fn.trait) in ('Debug', 'Clone', 'Copy', 'PartialEq', 'Eq', 'PartialOrd', 'Ord', 'Hash') and fn.self_adt and last_seg(fn.self_adt) == 'PageNodeID':
+            continue        # derived impls: what matters is who calls them
+        for bb in sorted(fn.reachable_blocks()):
+            what = None
+            for st in fn.blocks[bb]['stmts']:
+                if st['k'] != 'assign':
+                    continue
+                rv = st['rv']
+                if rv['k'] == 'discr':
+                    pl = rv['p']
+                    ty = fn.locals[pl['l']]['ty'] if not pl['pr'] else str(pl['pr'][-1].get('ty') or pl['pr'][-1].get('of') or '')
+                    if 'PageNodeID' in ty and 'Option' not in ty.split('PageNodeID')[0][-8:]:
+                        what = 'tests the variant of an id'
+                from facts import rvalue_places
+                for pl in rvalue_places(rv):
+                    for i, e in enumerate(pl['pr']):
+                        if e['k'] == 'downcast' and 'PageNodeID' in str(e.get('adt') or e.get('of') or ''):
+                            what = what or 'takes the number out of an id'
+            t = fn.term(bb)
+            c = callee_of(t) if t['k'] == 'call' else None
+            if c and c.get('trait') in ('std::cmp::PartialEq', 'std::cmp::PartialOrd', 'std::cmp::Ord', 'std::hash::Hash') and 'PageNodeID' in c['path'] + str(c.get('self_ty') or ''):
+                what = 'compares or hashes ids'
+            if what:
+                if in_owner:
+                    owner_sites += 1
+                else:
+                    n += 1
+                    res.append(bad(rule, '%s | %s' % (fn.qual, what),
+                                   '%s %s at %s: a leaf changed in this transaction is `Node(n)` to the search and `Page(p)` to a cursor that steps into it, so a decision '
+                                   'based on the form or the identity of an id treats the same leaf in two ways' % (fn.qual, what, fn.loc(bb)), where=fn.loc(bb)))
+    f = floor(rule, 'places where the overlay owner interprets an id', owner_sites, 2)
+    if f:
+        res.append(f)
+    if not n:
+        res.append(ok(rule, 'ids are interpreted only by the overlay owner (%d sites in InnerBucket)' % owner_sites, sites=owner_sites))
+    return res
+
+
 def reresolve(ctx, rule='C07.reresolve'):
     res = []
     F = ctx.facts
@@ -278,7 +331,40 @@ def scan_skips_empty(ctx, rule='C07.scan-skips-empty'):
                         none_arm = tg.get(0, tt['otherwise'])
                         if bb in nxt.reach_from([none_arm]):
                             examined = True
+        # ... and whether a None ends the scan or sends it on is decided by the depth of the stack alone (the root may be empty, nothing below it may end the scan): a
+        # budget ("step over one empty leaf per call"), a flag or the form of the id lets the scan stop in the middle of a run of emptied leaves
+        other = None
         if examined:
+            du = ctx.du(nxt)
+            for b2 in nxt.reachable_blocks():
+                tt = nxt.term(b2)
+                if tt['k'] != 'switch' or not any(st['k'] == 'assign' and st['rv']['k'] == 'discr' and st['rv']['p']['l'] == d and op_local(tt['discr']) == st['p']['l']
+                                                  for st in nxt.blocks[b2]['stmts']):
+                    continue
+                tg = dict((v, x) for v, x in tt['targets'])
+                none_arm = tg.get(0, tt['otherwise'])
+                back = nxt.reach_from([none_arm])
+                cands = [h for h in back if nxt.dominates(h, bb) and h != bb]
+                heads = [h for h in cands if all(nxt.dominates(h, o) for o in cands)]
+                if not heads:
+                    continue
+                H = heads[0]
+                region = nxt.reach_from([none_arm], avoid={H})
+                for sb in sorted(region):
+                    ts = nxt.term(sb)
+                    if ts['k'] != 'switch':
+                        continue
+                    ends = [any(nxt.term(x)['k'] == 'return' for x in nxt.reach_from([y], avoid={H})) for y in nxt.succ(sb)]
+                    if any(ends) and not all(ends):
+                        _, atoms = du.slice_operand(ts['discr'])
+                        if not has_field(atoms, 'Cursor', 'stack'):
+                            other = sb
+        if examined and other is not None:
+            res.append(bad(rule, '%s | skipping an emptied leaf depends on more than the stack depth' % nxt.qual,
+                           'after current() returned None at %s, the test at %s decides between going on and ending the scan without looking at the depth of the cursor stack: '
+                           'with two emptied leaves in a row (or a leaf reached by stepping rather than by search) the scan ends although later entries exist'
+                           % (nxt.loc(bb), nxt.loc(other)), where=nxt.loc(other)))
+        elif examined:
             res.append(ok(rule, 'the entry fetched at %s is examined; a None below the root sends the cursor on to the next leaf' % nxt.loc(bb), sites=1))
         else:
             res.append(bad(rule, '%s | entry returned unexamined' % nxt.qual,
@@ -337,6 +423,42 @@ def position_from_search(ctx, rule='C07.position-from-search'):
     f = floor(rule, 'positions handed to PageNode::val / Node::delete in InnerBucket methods', n, 4)
     if f:
         res.append(f)
+    # the same for the *node* that receives a new entry: it is the leaf the search of this operation ended in, not a node id remembered from when a placeholder was
+    # inserted (the merge pass may have emptied and unlinked that node since)
+    nins = 0
+    for fn in sorted(F.fns, key=lambda f: f.path):
+        if fn.kind == 'Closure' or not fn.self_adt or last_seg(fn.self_adt) != 'InnerBucket':
+            continue
+        if ctx.A.module_private(fn) and F.callers(fn):
+            continue
+        X = ctx.A.xf(fn)
+        du = None
+        for bb in sorted(X.reachable_blocks()):
+            t = X.term(bb)
+            c = callee_of(t) if t['k'] == 'call' else None
+            if not c or not t['args'] or not strip_generics(c['path']).endswith('Node::insert_data'):
+                continue
+            du = du or ctx.du(X)
+            e = du.sym(t['args'][0])
+            nins += 1
+            found = c16._tree_has(e, lambda x: x[0] == 'call' and x[1] == sr.path)
+            if not found:
+                # the stack is a local that the search filled through a `&mut` parameter in this same function
+                locs_e, _ = du.slice_operand(t['args'][0])
+                for sb, stt, sc in calls_to_fn(F, X, sr):
+                    for a in stt['args']:
+                        pl = op_place(a)
+                        if pl is not None and X.locals[pl['l']]['ty'].startswith('&mut std::vec::Vec<') and (du.slice_local(pl['l'])[0] & locs_e) and X.dominates(sb, bb):
+                            found = True
+            if found:
+                res.append(ok(rule, '%s: the node that receives the entry at %s is the one the search of this call ended in' % (fn.qual, X.loc(bb)), sites=1))
+            else:
+                res.append(bad(rule, '%s | entry inserted into a node not found by a search in the same operation' % fn.qual,
+                               '%s inserts an entry at %s into the node `%s`, which does not come from a tree search made in this call: a node id kept from an earlier operation may '
+                               'name a node that has been merged away since, and what is stored there never reaches the file' % (fn.qual, X.loc(bb), c16._fmt(e)[:120]), where=X.loc(bb)))
+    f = floor(rule, 'insertions of entries into nodes in InnerBucket methods', nins, 2)
+    if f:
+        res.append(f)
     return res
 
 
@@ -345,6 +467,7 @@ def run(ctx, tier):
     results += overlay_first(ctx)
     results += read_via_overlay(ctx)
     results += reresolve(ctx)
+    results += id_form_opaque(ctx)
     results += single_root(ctx)
     results += exact_match_used(ctx)
     results += overlay_registered(ctx)
@@ -371,6 +494,6 @@ def run(ctx, tier):
         explanation=(
             'Decides the ROUTING of reads, not what the cursor then does with them: (overlay-first) the overlay lookup returns the mapped page only when the page -> node map has no '
             'materialised node; (read-via-overlay) every function reachable (constant-bool specialised) from the public read API dereferences mapped pages only inside the overlay lookup; '
-            '(reresolve) cursors hold ids and indices only, never a page or node; (single-root) bucket views are built from the committed header root only at begin; (range-start-compare) a range start is decided by comparing the key of the current entry, not by position (branch keys are stale inside a write transaction); (index-agreement) node-backed (modified) and page-backed (untouched) parts of the tree resolve a missing key identically. NOT decided: the '
+            '(reresolve) cursors hold ids and indices only, never a page or node; (single-root) bucket views are built from the committed header root only at begin; (range-start-compare) a range start is decided by comparing the key of the current entry, not by position (branch keys are stale inside a write transaction); (index-agreement) node-backed (modified) and page-backed (untouched) parts of the tree resolve a missing key identically. (id-form-opaque) only InnerBucket interprets the form of an id; (scan-skips-empty, second clause) the skip is decided by the stack depth alone; (position-from-search, second clause) entries go into the node the same call\'s search ended in. NOT decided: the '
             'cursor\'s treatment of emptied leaves (known early-stop defect), which entries come back.'),
         assumptions=[])
